@@ -155,15 +155,19 @@ claim("C16", "other",
       "contract-based deductive verification (AST->SMT VCs with if-merging, masked-selection model; z3+cvc5) + native cross-check", "DESIGN.md 5/C16")
 
 claim("C17", "other",
-      "Lemmas proved over the PSD spec psd[k] = 2 sum_w |X_w[k]|^2 / (mean(taper^2) N fs W): Welch averaging (the density of W windows is the "
-      "average of the single-window densities, W = 2, 3) and k^2 amplitude scaling. Bounded (labelled; the bodies use complex FFT output and "
-      "external rfft/irfft/freqs): _rpds_single_component equals that spec bin by bin, satisfies Parseval on the bins strictly between 0 Hz "
+      "Proof: _rpds_single_component for every number of equal-length windows, every even FFT length and every bin - the accumulator equals the "
+      "sum over the windows of the bin's power (ghost prefix sum, loop invariant; the loop variable rebound to a windowed copy is modelled), and "
+      "the result is that sum divided by the taper's mean square (the function's own local), the number of samples, the sampling rate and the "
+      "number of windows, times two; lemma: this chain equals 2 S / (mean(taper^2) N fs W). window / rfft / conjugate / real are uninterpreted "
+      "there. Lemmas over that spec: Welch averaging (the density of W windows is the average of the single-window densities, W = 2, 3) and k^2 "
+      "amplitude scaling. Bounded (labelled; complex FFT output and external rfft/irfft/freqs): _rpds_single_component equals the spec bin by "
+      "bin numerically, satisfies Parseval on the bins strictly between 0 Hz "
       "and Nyquist (tapered mean square minus the share of those two bins, normalised by the taper's mean square), leaves its inputs "
       "unmodified; rpsd per component with smoothing on and off; diffuse-field HVSR = sqrt(S(Pns+Pew)/S(Pvt)) of exactly the retained windows "
       "(minority time step first / last / absent); psd_preprocess = filter -> (constant detrend, taper) -> division by a flat response with "
       "the mean removed -> filter -> spectral derivative -> split -> detrend.",
       "Trusted: numpy/scipy FFT, taper, filters, freqs; floats as reals for the lemmas. Bounds: 1-4 windows of 64-300 samples, 4 steps, 4 tapers, 3 FFT lengths, scales 1e-4..1e3.",
-      "contract lemmas (z3) + bounded native evaluation of the PSD / preprocessing contracts", "DESIGN.md 5/C17")
+      "contract-based deductive verification of the PSD accumulation / scaling function (z3+cvc5) + lemmas + bounded native evaluation of the PSD / preprocessing contracts", "DESIGN.md 5/C17")
 
 claim("C18", "other",
       "Proof: TimeSeries.__init__ and TimeSeries.from_timeseries give the new object fresh sample storage with element-wise equal content (so "
